@@ -61,7 +61,7 @@ T_Exit == /\ IsEvent("exit")
           /\ LET t == E.task IN
              /\ G("exit.cur", cur = t /\ ~yl)
              /\ IF t \in Client
-                THEN G("exit.client", cli[t].stage = "idle" /\ E.how = "ready")
+                THEN G("exit.client." \o cli[t].op, cli[t].stage = "idle" /\ E.how = "ready")
                 ELSE IF t \in DOMAIN tmr
                 THEN G("exit.timer", tmr[t].st = "ended" /\ E.how = "ready")
                 ELSE /\ G(IF t \in Actor /\ act[t].pc = "idle" /\ act[t].mq = <<>> /\ ~ChanOpen(t) THEN "exit.loop.closed"      \* left without stopped() after the last drop
